@@ -11,7 +11,12 @@ Ties (every run):
 * file level: a skeleton of every generated C++/Java/ObjC/C++-CLI declaration (extracted by `ctok.py`) against
   the model's `apiSkel`.
 Specification on the implementation's observations: `printT (ref… t)` (the independently written reference
-mapping) against every real type string, and `fidelity` (op `c02.spec`) on every extracted skeleton.
+mapping) against every real type string, `fidelity` (op `c02.spec`) on every extracted skeleton, and the style
+specification `convertSpec` (op `c02.convertSpec`: prefix, capital letters exactly at the starts of the `_`-separated
+words for camelCase / PascalCase, every separator kept in place for the separator styles, letters preserved) on the real
+`convert` over an identifier stream with every character-class boundary (digit→letter, letter→digit, lower→upper, `_`
+runs, trailing `_`, one-letter and all-capitals words) and on every plainly converted name (type, field, method, item)
+of every extracted declaration, whose programs draw their identifiers from the same classes.
 """
 from __future__ import annotations
 
@@ -298,7 +303,12 @@ def _file_worker(args):
     if given is None:
         r = random.Random(f"{seed}/c02/file/{pi}")
         cfg = gen_api.rand_config(r, base / "out") if pi % 4 else gen_api.default_like_config(base / "out")
-        decls = gen_api.ProgGen(r, base_records=True).program()
+        # identifiers: two programs of three draw declaration and member names also from the lists of character-class shapes
+        # (digit→letter, letter→digit, `__`, trailing `_`, single letters, all-capitals words), one keeps the plain lists
+        wide = pi % 3 != 2
+        decls = gen_api.ProgGen(r, base_records=True,
+                                names=gen_api.SAFE_NAMES + gen_api.TYPE_SHAPES if wide else None,
+                                member_names=gen_api.MEMBER_NAMES + gen_api.MEMBER_SHAPES if wide else None).program()
         text = gen_api.render(decls)
     else:
         text = given["idl"]
@@ -351,6 +361,55 @@ def _file_worker(args):
     return res
 
 
+def style_probes(lc: dict, j: dict, target: str, sk: dict) -> list[dict]:
+    """the names of one extracted declaration that are, by the documentation, `convert(style, IDL name)` with nothing added:
+    (role, style, IDL name, generated name). Decorated names (ObjC selectors and prefixed items, Java getters, anonymous
+    functions) are judged by the fidelity clauses only."""
+    kind = j["_kind"]
+    out = []
+
+    def add(role, style, idl, got):
+        out.append({"role": role, "style": style, "s": idl, "out": got})
+    base = j["name"] + ("_base" if kind == "Record" and target in j["targets"] else "")
+    if target == "objc":
+        # Objective-C has no namespaces: `<type_prefix><namespace path, converted><name, converted>`; judged here for declarations
+        # outside any namespace (nothing in between). There a prefixed `identifier.type` style writes its prefix twice — the
+        # namespace part is the conversion of the empty identifier, i.e. the bare prefix (finding `style:objc:type-prefix-repeated`)
+        pfx, st = lc["objc"]["typePrefix"], lc["objc"]["type"]
+        if not j["ns"] and sk["name"].startswith(pfx) and kind != "Function":
+            rest = sk["name"][len(pfx):]
+            if st["pfx"] and rest.startswith(st["pfx"] * 2):
+                out.append({"role": "type", "style": st, "s": base, "out": rest[len(st["pfx"]):], "note": "prefix-repeated", "written": sk["name"]})
+            else:
+                add("type", st, base, rest)
+        return out
+    cfg = lc[target]
+    if sk["name"] and not (kind == "Function" and (j.get("anonymous") or target in ("cpp", "java"))):
+        add("type", cfg["type"], base, sk["name"])
+    if kind == "Function" and target == "java" and not j.get("anonymous") and sk["name"]:
+        add("type", cfg["type"], base, sk["name"])
+    if kind in ("Enum", "Flags"):
+        items = [i if isinstance(i, str) else i["n"] for i in j["items"] if isinstance(i, str) or target != "java" or not (i["all"] or i["none"])]
+        if len(items) == len(sk["items"]):
+            for a, b in zip(items, sk["items"]):
+                add("item", cfg["enum"], a, b)
+    if kind == "Record" and len(j["fields"]) == len(sk["fields"]):
+        for f, (_, n) in zip(j["fields"], sk["fields"]):
+            add("field", cfg["property" if target == "cppcli" else "field"], f["n"], n)
+    if kind == "Interface" and len(j["methods"]) == len(sk["methods"]):
+        for m, g in zip(j["methods"], sk["methods"]):
+            add("method", cfg["method"], m["n"], g["name"])
+    return out
+
+
+def report_capped(ctx, key, what, body, cap=3):
+    """at most `cap` replays per violated clause (the count is in the statistics)"""
+    seen = ctx.stats.get("reported_" + key, 0)
+    ctx.stat("reported_" + key)
+    if seen < cap or key in ctx._finding_keys:
+        ctx.report(key, what, body)
+
+
 def file_level(ctx, rows, n_programs, given=None):
     import multiprocessing
     t0 = time.time()
@@ -371,15 +430,33 @@ def file_level(ctx, rows, n_programs, given=None):
             ctx.report(key, what, body)
         reqs.append({"op": "c02.skel", "cfg": res["lc"], "builtins": rows, "udefs": res["udefs"], "decls": res["udefs"]})
         reqs.append({"op": "c02.spec", "cfg": res["lc"], "builtins": rows, "udefs": res["udefs"], "decls": res["udefs"], "cases": res["cases"]})
+        # "names follow the configured identifier style": every plainly converted name of every extracted declaration against `convertSpec`
+        res["probes"] = [{**p, "case": ci} for ci, c in enumerate(res["cases"]) for p in style_probes(res["lc"], res["udefs"][c["decl"]], c["target"], c["skel"])]
+        reqs.append({"op": "c02.convertSpec", "items": [{"style": p["style"], "s": p["s"], "out": p["out"]} for p in res["probes"]]})
         kept.append(res)
     answers = ctx.driver.batch(reqs)
     breaks = []
     for i, res in enumerate(kept):
         text, cfg, udefs, cases = res["text"], res["cfg"], res["udefs"], res["cases"]
-        model, spec = answers[2 * i], answers[2 * i + 1]
-        for a in (model, spec):
+        model, spec, styles = answers[3 * i], answers[3 * i + 1], answers[3 * i + 2]
+        for a in (model, spec, styles):
             if "error" in a:
                 raise common.Infra(f"driver error: {a['error']}\n{text}")
+        for p, ok in zip(res["probes"], styles["out"]):
+            ctx.coverage["evaluations"] += 1
+            c = cases[p["case"]]
+            ctx.count(key=("style", c["target"], p["role"], p["style"]["case"], shape_of_id(p["s"])), nontrivial=True,
+                      sample={"identifier": p["s"], "style": p["style"], "generated": p["out"], "target": c["target"], "role": p["role"]})
+            if p.get("note"):
+                report_capped(ctx, f"style:{c['target']}:{p['role']}-{p['note']}",
+                              f"the {c['target']} {p['role']} name generated for `{p['s']}` outside any namespace is `{p['written']}`: the prefix of the style {p['style']} is written twice",
+                              {"input": {"idl": text, "config": cfg["generate"]}, "target": c["target"], "declaration": udefs[c["decl"]]["name"],
+                               "role": p["role"], "idl_name": p["s"], "generated_name": p["written"], "style": p["style"]}, cap=1)
+            if not ok:
+                report_capped(ctx, f"style:{c['target']}:{p['role']}",
+                              f"the {c['target']} {p['role']} name generated for `{p['s']}` is `{p['out']}`: not the identifier in the configured style {p['style']}",
+                              {"input": {"idl": text, "config": cfg["generate"]}, "target": c["target"], "declaration": udefs[c["decl"]]["name"],
+                               "role": p["role"], "idl_name": p["s"], "generated_name": p["out"], "style": p["style"]})
         for c, s in zip(cases, spec["out"]):
             j = udefs[c["decl"]]
             ctx.count(key=("file", c["target"], member_shape(j)), nontrivial=True,
@@ -390,7 +467,7 @@ def file_level(ctx, rows, n_programs, given=None):
             if d:
                 breaks.append({"target": c["target"], "declaration": j["name"], "difference (model vs file)": d, "idl": text, "config": cfg["generate"]})
             if not s["holds"]:
-                ctx.report(f"api:{c['target']}:" + "+".join(s["failed"]),
+                report_capped(ctx, f"api:{c['target']}:" + "+".join(s["failed"]),
                            f"the {c['target']} declaration generated for `{j['name']}` does not mirror the IDL declaration: " + ", ".join(s["failed"]),
                            {"input": {"idl": text, "config": cfg["generate"]}, "target": c["target"], "declaration": j["name"],
                             "failed_clauses": s["failed"], "extracted_skeleton": c["skel"]})
@@ -402,18 +479,42 @@ def file_level(ctx, rows, n_programs, given=None):
 # --------------------------------------------------------------------------------------------------------
 
 ALL_CASES = ['none', 'camelCase', 'PascalCase', 'snake_case', 'kebab-case', 'TRAIN_CASE']
-TRICKY_IDS = ['a', 'A', 'foo', 'fooBar', 'foo_bar', 'FOO_BAR', 'a__b', 'x1_y2', 'e_', 'e__', 'HTTPReq', 'aB_cD', 'a_1b', 'z9', 'Zed_', 'a_b_c_d', 'ABC', 'lowerUPPER_mix1']
+TRICKY_IDS = ['a', 'A', 'foo', 'fooBar', 'foo_bar', 'FOO_BAR', 'a__b', 'x1_y2', 'e_', 'e__', 'HTTPReq', 'aB_cD', 'a_1b', 'z9', 'Zed_', 'a_b_c_d', 'ABC', 'lowerUPPER_mix1',
+              # a letter directly after a digit / a digit after a letter, inside the first word and inside a later one
+              'vec3d', 'x2y', 'to_base64url', 'md5sum_kind', 'i18n', 'n2k', 'make_v2codec', 'r2D2', 'a1b2c3', 'x_1_2', 'k9Unit', 'a1', 'a_1', 'a1_', 'A1B', 'utf8_name', 'sha256',
+              # separator runs, trailing separators, single letters, all-capitals words
+              'a___b', 'e___', 'x_Y', 'X', 'z', 'URL', 'URL_id', 'get_URL2x', 'A_B_C', 'a_B', 'Z_', 'q__', 'aa_b__c___d', 'ID', 'iD', 'Id_', 'x9_', 'x_9', 'X9Y']
 # outside the IDL grammar (identifiers start with a letter): where `convert_style` needs its hypothesis
 EXCLUDED_POINTS = ['_ab', '__x', '_', '', '_A_b']
 
 
 def rand_identifier(r: random.Random) -> str:
+    """an identifier of the IDL grammar (`[a-zA-Z][a-zA-Z0-9_]*`); half of them character soup, half built from runs of one
+    character class (lower, upper, Capitalised, digits, `_`..`___`) so that every class boundary — digit→letter, letter→digit,
+    lower→upper, `_` runs, a trailing `_`, one-letter words — occurs often"""
     letters = "abcdefghijklmnopqrstuvwxyzABCDEFGHIJKLMNOPQRSTUVWXYZ"
-    n = r.randint(1, 14)
-    s = r.choice(letters)
-    for _ in range(n - 1):
-        x = r.random()
-        s += "_" if x < 0.18 else (r.choice("0123456789") if x < 0.3 else r.choice(letters))
+    if r.random() < 0.5:
+        n = r.randint(1, 14)
+        s = r.choice(letters)
+        for _ in range(n - 1):
+            x = r.random()
+            s += "_" if x < 0.18 else (r.choice("0123456789") if x < 0.3 else r.choice(letters))
+        return s
+    low, up = "abcdexyz", "ABCDXYZ"
+    s = ""
+    for i in range(r.randint(1, 6)):
+        k = r.choice(["lower", "upper", "cap", "digits", "sep"] if i else ["lower", "upper", "cap"])
+        n = r.choice([1, 1, 2, 3])
+        if k == "lower":
+            s += "".join(r.choice(low) for _ in range(n))
+        elif k == "upper":
+            s += "".join(r.choice(up) for _ in range(n))
+        elif k == "cap":
+            s += r.choice(up) + "".join(r.choice(low) for _ in range(n))
+        elif k == "digits":
+            s += "".join(r.choice("0123456789") for _ in range(r.choice([1, 1, 2])))
+        else:
+            s += "_" * r.choice([1, 1, 1, 2, 3])
     return s
 
 
@@ -448,7 +549,7 @@ def convert_level(ctx):
         ctx.count(key=("convert", it["style"]["case"], bool(it["style"]["pfx"]), shape_of_id(it["s"])), nontrivial=True,
                   sample={"identifier": it["s"], "style": it["style"], "converted": o})
         if not ok:
-            ctx.report("convert:" + it["style"]["case"], f"convert({it['s']!r}, {it['style']}) = {o!r} does not have the shape of the style / loses letters",
+            report_capped(ctx, "convert:" + it["style"]["case"], f"convert({it['s']!r}, {it['style']}) = {o!r} does not have the shape of the style / loses letters",
                        {"input": {"identifier": it["s"], "style": it["style"]}, "implementation": o, "model": m})
     ctx.stats["convert_excluded_points_violating_shape"] = excluded
     return breaks
